@@ -151,7 +151,7 @@ theorem CustomReach.leaves (b0 : List (Entry Key)) : Leaves E (CustomReach E b0)
     exact Pres.modS_of (fun s hs => hs)
   modCtl := fun f h => Pres.modS_of (fun s hs => by unfold CustomReach at *; rw [(h s).2.2.2.1]; exact hs)
   setHst := fun _ => Pres.modS_of (fun s hs => hs)
-  addCustom := fun h' key data => Pres.modS_of (fun s hs => by
+  addCustom := fun h' key data _ => Pres.modS_of (fun s hs => by
     obtain ⟨ops, hops⟩ := hs
     refine ⟨ops ++ [.enqueue key data s.cfg.maxTx], ?_⟩
     rw [G.runOps_append _ _ _ _ _ _ _ hops]
